@@ -29,9 +29,16 @@ def transition(history, op, want_c06=True):
     before = w.snap()
     rc_before = w.refcounts()
     out = w.apply(op)
-    after = w.snap()
+    try:
+        after = w.snap()
+        viol = check_links(w.roots(), w.reg)
+    except AttributeError as e:
+        # a public accessor of a reachable IR object fails: the call left an object half constructed
+        # (e.g. a value whose producer is a Node whose constructor raised before all of its fields were set)
+        v = [("reachable_object_left_half_constructed", f"{type(e).__name__}: {e}"[:120])]
+        return {"op": op, "out": out, "c01": v, "c06": [("?", "half_constructed_object_reachable", False, True)] if out[0] == "exc" else [],
+                "hash": _hash(("half-constructed", repr(op), repr(history)))}
     rec = {"op": op, "out": out}
-    viol = check_links(w.roots(), w.reg)
     rec["c01"] = viol
     if out[0] == "exc" and want_c06:
         # objects created by the failed call itself (e.g. a half-built node) are not
